@@ -11,8 +11,9 @@
      is outstanding it sends a forced-refresh request over the unbuffered channel `forceRefresh`
      (pending = Some t); failure of the forced refresh cancels the context.
    A regular refresh that ends successfully while the monitor is blocked sending its request blocks
-   the refresher on `refreshed`: neither goroutine proceeds any more (stuck).  cfg.patched = true models
-   the proposed repair (the monitor also receives `refreshed` while it waits to send).
+   the refresher on `refreshed`: neither goroutine proceeds any more (stuck) -- that was the code before
+   the fix of F-C13-1 (cfg.patched = false).  cfg.patched = true is the code as it is now: the monitor
+   also receives `refreshed` while it waits to send, takes the report and withdraws its request.
 
    check_case codes: 0 ok; 1 the observed timeline is not a run of the model / final state differs;
    2 context alive while the newest own lock file is older than R + poll + 3D (D = longest observed
